@@ -19,6 +19,43 @@ KIND_CLASS = {"pack": "GeckoPack", "cfg": "GeckoConfigStruct", "log": "GeckoLogS
 FILES_ALIASES = {"MrSt": "MrSteam"}
 
 
+def writability(ctx, repo, T):
+    """R10: which items a client may write is part of the published layout.  At the audited commit an item is
+    writable exactly when its table declares any RW value (not None).  Every distinct RW literal occurring in the
+    shipped tables is fed to both writers of a byte accessor built by the real constructor: a write is delivered
+    iff the literal is not None, and refused (exception, no write) otherwise."""
+    from ..absint import ClassRef, Interp, Native, Obj, PyRaise, Undecided
+    ctx.rule("R10", "published writability: for every distinct RW literal of the shipped tables both writers deliver a write iff the literal is not None")
+    values = {}
+    for stem, m in T.modules.items():
+        for it in m.items:
+            try:
+                rw = T.geometry(it).get("read_write")
+            except Exception:  # noqa: BLE001
+                continue
+            values.setdefault(rw, f"{stem}::{it.tag}")
+    ctx.floor("R10", "distinct RW literals in the tables", len(values), 2)
+    cls = repo.cls("GeckoByteStructAccessor")
+    for rw, where in sorted(values.items(), key=lambda kv: repr(kv[0])):
+        for method in ("_set_value", "async_set_value"):
+            interp = Interp(repo, max_depth=8)
+            got = []
+            st = Obj(None, {"status_block": b"\x00" * 16, "set_value": Native(lambda a, k: got.append(tuple(a))), "async_set_value": Native(lambda a, k: got.append(tuple(a)))})
+            try:
+                acc = interp.apply(ClassRef(cls), [st, "Item", 3, rw], {})
+                interp.steps = 0
+                interp.call(repo.method("GeckoByteStructAccessor", method), acc, [7])
+                outcome = "written" if got else "silently dropped"
+            except PyRaise:
+                outcome = "refused" if not got else "written then raised"
+            except Undecided as e:
+                raise AnalysisError(f"GeckoByteStructAccessor.{method} with RW {rw!r}: {e}")
+            want = "written" if rw is not None else "refused"
+            ctx.ob("R10", f"{method}::RW={rw!r}", outcome == want,
+                   f"an item declared with RW {rw!r} (e.g. {where}) is {outcome} by {method}; at the published layout it is {want}: the item's writability changed without a table edit",
+                   repo.method("GeckoByteStructAccessor", method).loc, sample={"rule": "R10", "rw": repr(rw), "writer": method, "outcome": outcome})
+
+
 def refresh_window(ctx, repo, T):
     """R9: the periodic refresh of both clients asks for a byte range that covers every item of the
     connected log table lying inside its published window [begin, end].  The request expression of each
@@ -227,6 +264,7 @@ def check(ctx):
 
     files_roundtrip_names(ctx, repo, T, rule="R5")
     refresh_window(ctx, repo, T)
+    writability(ctx, repo, T)
     ctx.assume("the spa reports its platform key as the GeckoPack.name of the shipped pack module (MrSt alias excepted)")
     ctx.trusted.append("struct-free: geometry folded from accessor.py constructors by vlib.absint")
 
